@@ -123,7 +123,7 @@ def pinyinCommit (v : Nat) (st : PinyinState) (code : Nat) : Option (Behavior ×
       else pinyinBuild v (sp.1.map (·.2)) (sp.2.bind (·.2.1)) (sp.2.bind (·.2.2)) tone
 
 /-- `Pinyin::key_press` -/
-def pinyinPress (v : Nat) (st : PinyinState) (k : KeyEvent) : Option (Behavior × PinyinState) :=
+def pinyinPress (v : Nat) (st : PinyinState) (k : KeyEv) : Option (Behavior × PinyinState) :=
   if st.keySeq.isEmpty && !isAtoZ k.code then some (.keyError, st)
   else if !pinyinEndKeys.contains k.code then
     if st.keySeq.length == maxPinyinLen then some (.noWord, st)
@@ -138,7 +138,7 @@ def pinyinRead (st : PinyinState) : Nat := st.syl
 
 /-- what can be done to the Pinyin layout (`fuzzy_key_press` is `key_press`) -/
 inductive POp
-  | key (k : KeyEvent)
+  | key (k : KeyEv)
   | removeLast
   | clear
 deriving Repr, DecidableEq
@@ -157,7 +157,7 @@ def pinyinRun (v : Nat) (st : PinyinState) : List POp → Option (List (Behavior
     | some (b, st') => (pinyinRun v st' ops).map fun tr => (b, st') :: tr
 
 /-- type letters then an end key from the fresh state -/
-def pinyinType (v : Nat) : PinyinState → List KeyEvent → Option (Behavior × PinyinState)
+def pinyinType (v : Nat) : PinyinState → List KeyEv → Option (Behavior × PinyinState)
   | st, [] => some (.ignore, st)
   | st, [k] => pinyinPress v st k
   | st, k :: ks =>
